@@ -23,7 +23,7 @@ import ast
 from ..core import AnalysisError, norm, short
 from .. import effects
 from .common import (cfg_of, fkey, conds, has_cond, stmts_of, walk_body, call_tail, call_name, returns_of, raises_of,
-                     raise_type, stmt_of, kwarg)
+                     raise_type, stmt_of, kwarg, local_aliases)
 from .noninterf import CORE_MODS
 
 APP, STATIC = 'clastic.application', 'clastic.static'
@@ -162,6 +162,8 @@ def run(rep):
         ok = ok and len(muts) == 1
     rep.check('R13.b', fkey(gm), ok, 'each route\'s middlewares are walked in order; a type already collected is skipped (first occurrence kept)' if ok else
               '_get_all_middlewares no longer keeps list order with first-occurrence de-duplication', app, gm.node)
+    from .chain import check_middleware_identity
+    check_middleware_identity(rep, 'R13.b')
     sw = app.func('_safe_wrap_wsgi')
     scfg = cfg_of(sw)
     ps = sw.params()
@@ -203,7 +205,7 @@ def run(rep):
         if fi_ is bfr:
             continue
         resp_vars = set(norm(s.targets[0]) for s in stmts_of(fi_.node) if isinstance(s, ast.Assign) and isinstance(s.value, ast.Call)
-                        and call_name(s.value) in ('bfr', 'build_file_response'))
+                        and call_name(s.value) in local_aliases(fi_, 'build_file_response'))
         if not resp_vars:
             continue
         drops = [e for e in effects.effects_in(fi_.node) if e.root in resp_vars and (e.chain or [None, None])[1:2] in (['response'], ['data'])] + \
@@ -218,7 +220,7 @@ def run(rep):
         rep.check('R13.c', fkey(fi_, 'returns the file response'), ok, 'the response built for the file is what is returned' if ok else
                   '%s does not return the response that owns the file' % fi_.qualname, st, fi_.node)
     gfr = st.func('StaticApplication.get_file_response')
-    fw = [kwarg(c, 'file_wrapper') for c in walk_body(gfr.node) if isinstance(c, ast.Call) and call_name(c) in ('bfr', 'build_file_response')]
+    fw = [kwarg(c, 'file_wrapper') for c in walk_body(gfr.node) if isinstance(c, ast.Call) and call_name(c) in local_aliases(gfr, 'build_file_response')]
     ok = bool(fw) and all(v is not None and "request.environ.get('wsgi.file_wrapper'" in norm(v) for v in fw)
     rep.check('R13.c', fkey(gfr, 'wsgi.file_wrapper'), ok, 'the server\'s wsgi.file_wrapper is used when offered' if ok else
               'wsgi.file_wrapper from the environ is not honoured', st, gfr.node)
